@@ -1,6 +1,8 @@
 import MiVerif.Model.DelayedExec
 open Delayed
 
+namespace DelayedVal
+
 def parseFlag : String → Option Flag
   | "use" => some .use | "freeing" => some .freeing | "no" => some .no | "never" => some .never | _ => none
 def parseBlk (s : String) : Option Blk := if s = "-1" then none else s.toNat?
@@ -125,17 +127,45 @@ def stepV (v : V) (line : String) : Except String V := do
     | none => fail "no current"
   | _ => pure v
 
-def main (args : List String) : IO UInt32 := do
-  let ls := (← IO.FS.readFile args[0]!).splitOn "\n"
-  let init : St := { tf := [], flag := .use, dl := [], pend := [], own := [], free := (List.range 24).map (· + 40),
-                     lf := [], live := List.range 40, fl := [] }
-  let mut v : V := { s := init }
+def parseInit (l : String) : Option St :=
+  -- "init live a b c free d e lf f g flag use"
+  let toks := l.splitOn " "
+  let rec go (ts : List String) (mode : String) (live free lf : List Nat) (flag : Flag) : Option St :=
+    match ts with
+    | [] => some { tf := [], flag := flag, dl := [], pend := [], own := [], free := free.reverse, lf := lf.reverse, live := live.reverse, fl := [] }
+    | t :: rest =>
+      if t == "live" ∨ t == "free" ∨ t == "lf" ∨ t == "flag" then go rest t live free lf flag
+      else if mode == "flag" then (parseFlag t).bind (fun f => go rest mode live free lf f)
+      else match t.toNat? with
+        | some k => if mode == "live" then go rest mode (k :: live) free lf flag
+                    else if mode == "free" then go rest mode live (k :: free) lf flag
+                    else go rest mode live free (k :: lf) flag
+        | none => none
+  match toks with
+  | "init" :: rest => go rest "" [] [] [] .use
+  | _ => none
+
+/-- exit codes: 0 accepted, 1 disagreement, 3 run outside the model (page extension / other page) -/
+def main (stdin : IO.FS.Stream) : IO UInt32 := do
+  let mut v : V := { s := { tf := [], flag := .use, dl := [], pend := [], own := [], free := [], lf := [], live := [], fl := [] } }
   let mut n := 0
-  for l in ls do
+  let mut started := false
+  repeat
+    let line ← stdin.getLine
+    if line.isEmpty then break
+    let l := line.trimAscii.toString
     n := n + 1
-    if l.isEmpty ∨ l.startsWith "page" ∨ l.startsWith "done" then continue
+    if l.isEmpty ∨ l.startsWith "page" ∨ l.startsWith "done" ∨ l.startsWith "FAIL" then continue
+    if l.startsWith "SKIP" ∨ l.startsWith "B t0 extended" ∨ l.startsWith "B t0 malloc-other-page" then
+      IO.println s!"skipped: {l}"; return 3
+    if l.startsWith "init" then
+      match parseInit l with
+      | some s0 => v := { s := s0 }; started := true; continue
+      | none => IO.println s!"DISAGREE line {n}: cannot parse init line"; return 1
+    if !started then continue
     match stepV v l with
     | .ok v' => v := v'
     | .error e => IO.println s!"DISAGREE line {n}: {e}"; return 1
   IO.println s!"accepted: {v.events} events, {v.steps} model steps ({v.silents} silent), final live={v.s.live.length} flag={repr v.s.flag} in-flight={v.s.fl.length}"
   return 0
+end DelayedVal
